@@ -107,8 +107,10 @@ theorem transparent_overrides : TransparentOn dOverrides Always := by
   intro p inner a w _
   simp [dOverrides]; usimp
 
-/-- "keyword call": `assert_uses_kwargs` has nothing to complain about (see `keyword_call_passes_guard`) -/
-def KeywordCall : Params → Fn → Args → World → Prop := fun p _ a _ => p.guard.trips a = false
+/-- the call gets past the guard statements of the wrapper: `DecoratedFunction(func)` accepts the callable and `assert_uses_kwargs`
+    has nothing to complain about — a keyword call (see `keyword_call_passes_guard`), but also every POSITIONAL call the guard lets
+    through: a callable taking `*args` (plain function, method, static method, class method, bound method handed to the decorator) -/
+def KeywordCall : Params → Fn → Args → World → Prop := fun p _ a _ => p.guard.rejects a = none
 
 theorem transparent_require_kwargs : TransparentOn dRequireKwargs KeywordCall := by
   intro p inner a w hk
@@ -126,11 +128,59 @@ theorem transparent_require_kwargs : TransparentOn dRequireKwargs KeywordCall :=
     · simp [dRequireKwargs]; usimp
 
 /-- nothing positional (or only the instance of a method that `DecoratedFunction` recognises): the guard is silent -/
-theorem keyword_call_passes_guard (g : Guard) (a : Args) (h : a.pos = [] ∨ (g.selfFirst = true ∧ a.pos.length = 1)) :
-    g.trips a = false := by
-  rcases h with h | ⟨h1, h2⟩
-  · simp [Guard.trips, Guard.argsWithoutSelf, h]
-  · simp [Guard.trips, Guard.argsWithoutSelf, h1, h2]
+theorem keyword_call_passes_guard (g : Guard) (a : Args) (hf : g.notFunction = false)
+    (h : (a.pos = [] ∧ g.selfFirst = false) ∨ (g.selfFirst = true ∧ a.pos.length = 1)) :
+    g.rejects a = none := by
+  rcases h with ⟨h, hs⟩ | ⟨h1, h2⟩
+  · simp [Guard.rejects, Guard.trips, Guard.argsWithoutSelf, h, hf, hs]
+  · have : a.pos ≠ [] := by intro h; simp [h] at h2
+    simp [Guard.rejects, Guard.trips, Guard.argsWithoutSelf, h1, h2, hf, this]
+
+/-- the region of the open finding `requireKwargsOnBoundMethodNeedsPositionalArgument`: the callable's first parameter is spelled
+    `self` and the wrapper receives no positional argument at all — a bound method handed to the decorator and called by keyword -/
+def inBoundRegion (g : Guard) (a : Args) : Bool := g.selfFirst && a.pos.isEmpty
+
+/-- a callable whose source spells `*args` is never refused, however many positional arguments the caller passes (outside the region
+    above) -/
+theorem star_args_call_passes_guard (g : Guard) (a : Args) (hf : g.notFunction = false) (hw : g.wantsArgs = true)
+    (hr : inBoundRegion g a = false) :
+    g.rejects a = none := by
+  have hr' : (g.selfFirst && a.pos.isEmpty) = false := hr
+  simp [Guard.rejects, Guard.trips, Guard.shouldHaveKwargs, hf, hw, hr']
+
+/-- **positional arguments that `require_kwargs` lets through reach the callable unchanged**: whatever is decorated — `inner` is any
+    callable: a plain function, `.bound self …` for a bound method handed to the decorator call, anything stacked — and however
+    `DecoratedFunction` classifies it (static method, class / bound method, instance method, several decorators: `p.guard` is
+    arbitrary apart from the two hypotheses), a callable that takes `*args` receives every positional and keyword argument of the
+    caller: same body invocation with the same bound arguments (surplus positionals included), same result / exception object -/
+theorem transparent_require_kwargs_star_args_partial (p : Params) (inner : Fn) (a : Args) (w : World)
+    (hf : p.guard.notFunction = false) (hw : p.guard.wantsArgs = true) (hr : inBoundRegion p.guard a = false) :
+    bodyObs (invoke (.deco dRequireKwargs p inner) a w) = bodyObs (invoke inner a w) :=
+  transparent_require_kwargs p inner a w (star_args_call_passes_guard p.guard a hf hw hr)
+
+/-- the full statement (no region guard).  It is **false** for the code as it is: see the witness. -/
+def transparent_require_kwargs_star_args_full : Prop :=
+  ∀ (p : Params) (inner : Fn) (a : Args) (w : World), p.guard.notFunction = false → p.guard.wantsArgs = true →
+    bodyObs (invoke (.deco dRequireKwargs p inner) a w) = bodyObs (invoke inner a w)
+
+/-- the call sites among the top-level statements of a wrapper body: whom it calls, with which positional and keyword arguments,
+    awaited or not -/
+def callSites (ss : List Stmt) : List (Callee × PosSrc × KwSrc × Bool) :=
+  ss.filterMap (fun s => match s with | .call _ c pos kw aw => some (c, pos, kw, aw) | _ => none)
+
+/-- generated fact, re-read from the source on every run: the wrapper of `require_kwargs` invokes the decorated callable exactly
+    once, as `func(*args, **kwargs)` — not through a helper that drops `*args` for some kinds of callable -/
+theorem require_kwargs_call_expression :
+    (match findWrapper dRequireKwargs "wrapper" with
+     | .wrapper w => w.body.map callSites
+     | _ => none) = some [(.wrapped, .args, .kwargs, false)] := by decide
+
+/-- a staticmethod / classmethod OBJECT handed to `require_kwargs` (the decorator written above `@staticmethod`) is refused on every
+    call, keyword calls included — the reason such programs are outside the claims (`spec` marks them `unspec`) -/
+theorem require_kwargs_rejects_non_functions (p : Params) (inner : Fn) (a : Args) (w : World) (hc : inner.isCoro = false)
+    (hf : p.guard.notFunction = true) :
+    invoke (.deco dRequireKwargs p inner) a w = (.exc (.lib "PedanticTypeCheckException"), [], w) := by
+  simp [dRequireKwargs, invoke, call, callLayer, select, findWrapper, runWrapper, execL, exec, Guard.rejects, mkFrame, bindVar, hc, hf]
 
 /-- **mock and unimplemented never run the body**: no event at all, whatever is underneath, for both flavours -/
 theorem mock_never_runs_body (p : Params) (inner : Fn) (a : Args) (w : World) :
@@ -483,7 +533,7 @@ def class_transparent_full (d : Deco) : Prop :=
 
 /-- `class Base:  def target(self): ...` (name 100 bound to a function in the class body; `object` and the metaclass `type` bind nothing of interest) -/
 def basePlain : ClassDesc := ⟨[[⟨100, ⟨false, true, true⟩⟩], []], [[], []], none, none⟩
-def p0 : Params := ⟨⟨90, 900⟩, [], ⟨false, ⟨[2, 3], [], [], false, false⟩, fun i => .ret ⟨300 + i, 300 + i⟩⟩, basePlain, 100, ⟨false, false, false, 1, false⟩⟩
+def p0 : Params := ⟨⟨90, 900⟩, [], ⟨false, ⟨[2, 3], [], [], false, false⟩, fun i => .ret ⟨300 + i, 300 + i⟩⟩, basePlain, 100, ⟨false, false, false, 1, false, false, false⟩⟩
 def b0 : Body := ⟨false, ⟨[2, 3], [], [], false, false⟩, fun i => .ret ⟨100 + i, 100 + i⟩⟩
 def a0 : Args := ⟨[11, 12], []⟩
 def w0 : World := ⟨0, 0⟩
@@ -495,6 +545,31 @@ theorem trace_class_fails_static_on_instance : ¬ class_transparent_full dTrace 
   decide
 
 
+
+/-- a method `def target(self, *args, c=None)` and what `DecoratedFunction` reads off the BOUND method `obj.target` handed to
+    `require_kwargs(...)`: `*args` in the source, first parameter `self`, no decorator lines, `inspect.ismethod` -/
+def bStarM : Body := ⟨false, ⟨[1], [4], [4], true, false⟩, fun i => .ret ⟨100 + i, 100 + i⟩⟩
+def pBound : Params := { p0 with guard := ⟨true, true, false, 0, false, true, false⟩ }
+
+/-- the complement really is violated (open finding `requireKwargsOnBoundMethodNeedsPositionalArgument`): `require_kwargs(obj.target)`
+    called by keyword only raises `IndexError` inside `FunctionCall.__init__` where `obj.target(c=…)` returns normally … -/
+theorem require_kwargs_bound_method_keyword_call_witness :
+    inBoundRegion pBound.guard ⟨[], [(4, 14)]⟩ = true
+    ∧ (invoke (.deco dRequireKwargs pBound (.bound 50 (.body bStarM))) ⟨[], [(4, 14)]⟩ w0).1.tag = .exc (.lib "IndexError")
+    ∧ (invoke (.bound 50 (.body bStarM)) ⟨[], [(4, 14)]⟩ w0).1.tag = .obj ⟨100, 100⟩ := by decide
+
+theorem transparent_require_kwargs_star_args_full_false : ¬ transparent_require_kwargs_star_args_full := by
+  intro h
+  have := h pBound (.bound 50 (.body bStarM)) ⟨[], [(4, 14)]⟩ w0 rfl rfl
+  revert this; decide
+
+/-- … while with a positional argument the same decorated bound method passes every argument on -/
+example : bodyObs (invoke (.deco dRequireKwargs pBound (.bound 50 (.body bStarM))) ⟨[11, 12, 13], [(4, 14)]⟩ w0)
+    = ⟨.obj ⟨100, 100⟩, [.body .wrapped 0 ⟨[(1, 50), (4, 14)], [11, 12, 13], []⟩], 1⟩ := by decide
+/-- a static method below `@staticmethod`: three surplus positional arguments and a keyword reach the body -/
+example : bodyObs (invoke (.deco dRequireKwargs { p0 with guard := ⟨true, false, true, 2, true, false, false⟩ }
+      (.body ⟨false, ⟨[], [4], [4], true, false⟩, fun i => .ret ⟨100 + i, 100 + i⟩⟩)) ⟨[11, 12, 13], [(4, 14)]⟩ w0)
+    = ⟨.obj ⟨100, 100⟩, [.body .wrapped 0 ⟨[(4, 14)], [11, 12, 13], []⟩], 1⟩ := by decide
 
 /-! ## Frame invariant: a stack never emits counter movements or warnings on behalf of a depth it does not reach -/
 
@@ -948,6 +1023,41 @@ theorem count_calls_counts (p : Params) (inner : Fn) (init : Int) :
     simp [sumIncr, incrOf, sumIncr_zero inner.depth _ hq.2]
     omega
 
+/-- generated fact: in `count_calls` the assignment `wrapper.num_calls = 0` runs AFTER the metadata copy of `@wraps` (which brings the
+    decorated callable's `__dict__`, a `num_calls` entry included, onto the wrapper) -/
+theorem count_calls_init_after_copy : dCountCalls.counterInitAfterCopy = true := by decide
+
+/-- **every decoration starts from zero**: whatever `num_calls` entry the decorated callable carries in its `__dict__` (`carried` is
+    arbitrary: none, the count of an already used counted function, a snapshot copied by a wraps-based decorator in between, any
+    attribute set by hand) and whatever kind of function it is, the counter of the new wrapper is 0 when `count_calls` returns -/
+theorem count_calls_fresh_zero (coro : Bool) (carried : Option Int) : attrAfterDecorate dCountCalls coro carried = some 0 := by
+  cases coro <;> simp [attrAfterDecorate, dCountCalls, select, findWrapper]
+
+/-- **count_calls counts every call once, starting from zero for each decoration**: decorate ANY callable (any stack `inner`, carrying
+    any `num_calls` entry — e.g. `count_calls(count_calls(f))`, `count_calls(trace(counted))`, re-decoration after `k` calls), then
+    call the result `n` times (returning, raising, not binding): its counter stands at `n` -/
+theorem count_calls_counts_from_zero (p : Params) (inner : Fn) (carried : Option Int) (hist : List Args) (w : World) :
+    ∃ z, attrAfterDecorate dCountCalls inner.isCoro carried = some z ∧
+      counterAfter z inner.depth (runHistory (.deco dCountCalls p inner) hist w) = hist.length := by
+  refine ⟨0, count_calls_fresh_zero _ _, ?_⟩
+  rw [count_calls_counts]; simp
+
+/-- one call moves the entry of a `count_calls` wrapper by exactly one, whatever it held -/
+theorem count_calls_attr_step (p : Params) (inner : Fn) (a : Args) (w : World) (v : Int) :
+    attrAfterCall dCountCalls inner.depth (invoke (.deco dCountCalls p inner) a w).2.1 (some v) = some (v + 1) := by
+  have h := count_calls_counts p inner v [a] w
+  simp only [runHistory, counterAfter, List.length_cons, List.length_nil] at h
+  have h2 : v + sumIncr inner.depth (invoke (.deco dCountCalls p inner) a w).2.1 = v + 1 := by simpa using h
+  have hc : dCountCalls.counterInit = some 0 := by decide
+  simp only [attrAfterCall, hc, Option.map_some, h2]
+
+/-- the wraps-based decorators without a counter carry the decorated callable's entry along as a snapshot (`trace(counted).num_calls`
+    is what `counted.num_calls` was when `trace` was applied) — the situation `count_calls_fresh_zero` is about -/
+theorem wraps_carries_counter_snapshot (coro : Bool) (carried : Option Int) :
+    attrAfterDecorate dTrace coro carried = carried ∧ attrAfterDecorate dTimer coro carried = carried
+    ∧ attrAfterDecorate dDeprecated coro carried = carried ∧ attrAfterDecorate dRequireKwargs coro carried = carried := by
+  cases coro <;> simp [attrAfterDecorate, dTrace, dTimer, dDeprecated, dRequireKwargs, select, findWrapper]
+
 /-- the counter movements are attributed to the right layer: a second `count_calls` underneath keeps its own count -/
 example : (runHistory (.deco dCountCalls p0 (.deco dCountCalls p0 (.body b0))) [a0, a0, a0] w0).map (fun o => o.2.1.filter (fun e => incrOf 1 e != 0 || incrOf 0 e != 0))
     = [[.incr 1 1, .incr 0 1], [.incr 1 1, .incr 0 1], [.incr 1 1, .incr 0 1]] := by decide
@@ -1132,10 +1242,10 @@ theorem trace_if_returns_meets_spec (p : Params) (b : Body) (a : Args) (w : Worl
         evalExpr, evalCond, evalCmp, lookup, awaitVal, Res.tag, Val.pyEq, gap, Fn.isCoro, Fn.depth, Fn.metaOk,
         callBody, hb, hc, hs, hv, obsModel, obsSpec, sumIncr, sumInts, isWarnAt, incrOf, isBodyOf, runBody, World.count, World.bump, outcRes, outcTag]
 
-theorem require_kwargs_meets_spec (p : Params) (b : Body) (a : Args) (w : World) (hk : p.guard.trips a = false) :
+theorem require_kwargs_meets_spec (p : Params) (b : Body) (a : Args) (w : World) (hk : p.guard.rejects a = none) :
     obsModel (invoke (.deco dRequireKwargs p (.body b)) a w) = obsSpec (spec (.layer .requireKwargs p (.body b)) 0 a w) := by
   have h : obsSpec (spec (.layer .requireKwargs p (.body b)) 0 a w) = obsSpec (specBody b a w) := by
-    simp only [spec]; split <;> simp [obsSpec]
+    simp only [spec]; split <;> (try split) <;> simp [obsSpec]
   rw [h]
   simp only [specBody]
   cases hb : bind b.sig a with
@@ -1194,7 +1304,7 @@ example : bind b0.sig a0 = some ⟨[(2, 11), (3, 12)], [], []⟩ ∧ bind b0.sig
 example : bind b0.sig ⟨[11], []⟩ = none := by decide
 -- require_kwargs: a keyword call passes, a positional call trips the guard
 example : KeywordCall p0 (.body b0) ak w0 := by simp only [KeywordCall]; decide
-example : p0.guard.trips a0 = true := by decide
+example : p0.guard.rejects a0 = some "PedanticCallWithArgsException" := by decide
 example : (invoke (.deco dRequireKwargs p0 (.body b0)) a0 w0).1.tag = .exc (.lib "PedanticCallWithArgsException") := by decide
 -- rename_kwargs: hypothesis of transparency, and the exact map with a collision (`zz` → `a` after an explicit `a`: the later one wins)
 example : NoListedKey pRename (.body b0) ak w0 := ⟨by decide, by simp [DistinctKeys, ak, hasKey, kwGet?]⟩
